@@ -720,6 +720,7 @@ package gkvlite
 //@   decreases chainlen(r) + 1
 //@   ensures [C10,C04] R5-still-referenced-means-untouched: old(r.refs) > 1 ==> r.refs == old(r.refs) - 1 && freeNodes == old(freeNodes) && freeNodeLocs == old(freeNodeLocs) && freeRootNodeLocs == old(freeRootNodeLocs) && net == old(net) && node.next == old(node.next) && nodeLoc.node == old(nodeLoc.node) && nodeLoc.loc == old(nodeLoc.loc) && itemLoc.item == old(itemLoc.item) && rootNodeLoc.root == old(rootNodeLoc.root) && tvs == old(tvs) && nodeLoc.next == old(nodeLoc.next) && rootNodeLoc.next == old(rootNodeLoc.next) && rootNodeLoc.chainedCollection == old(rootNodeLoc.chainedCollection) && rootNodeLoc.chainedRootNodeLoc == old(rootNodeLoc.chainedRootNodeLoc)
 //@   ensures [C10] R5-only-this-count: old(r.refs) > 1 ==> forall x :: x != r ==> rootNodeLoc.refs[x] == old(rootNodeLoc.refs[x])
+//@   ensures [C10,C15,C04] R4-last-release-also-releases-the-chained-successor: old(r.refs) <= 1 && old(r.chainedCollection) != nil && old(r.chainedRootNodeLoc) != nil && old(r.chainedRootNodeLoc.refs) > 1 ==> old(r.chainedRootNodeLoc).refs == old(r.chainedRootNodeLoc.refs) - 1
 //@   ensures [C10,C04] R7-last-release-frees-only-this-version: old(r.refs) <= 1 && (old(r.chainedCollection) == nil || old(r.chainedRootNodeLoc) == nil) ==> (forall x {tvs[x]} :: x != old(r.root) ==> tvs[x] == old(tvs)[x]) && (forall v {rootNodeLoc.root[v]} {rootNodeLoc.refs[v]} {rootNodeLoc.next[v]} {rootNodeLoc.chainedCollection[v]} {rootNodeLoc.chainedRootNodeLoc[v]} :: v != r ==> rootNodeLoc.root[v] == old(rootNodeLoc.root[v]) && rootNodeLoc.refs[v] == old(rootNodeLoc.refs[v]) && rootNodeLoc.next[v] == old(rootNodeLoc.next[v]) && rootNodeLoc.chainedCollection[v] == old(rootNodeLoc.chainedCollection[v]) && rootNodeLoc.chainedRootNodeLoc[v] == old(rootNodeLoc.chainedRootNodeLoc[v]))
 //@   loop 0 modifies node.numNodes, node.numBytes, node.next, itemLoc.loc, itemLoc.item, nodeLoc.loc, nodeLoc.node, nodeLoc.next, r.reclaimLater, G.freeNodes, AllocStats.CurFreeNodes, AllocStats.FreeNodes, ghost net
 //@   after (*Collection).rootDecRefUnlocked.0 assumes r.root == old(r.root) && r.next == old(r.next) && r.refs == old(r.refs) && r.superseded == old(r.superseded) && (r.root != nil ==> r.root.next == old(r.root.next) && r.root.node == old(r.root.node)) && r.reclaimLater[0] == old(r.reclaimLater[0]) && r.reclaimLater[1] == old(r.reclaimLater[1]) && r.reclaimLater[2] == old(r.reclaimLater[2])
